@@ -8,9 +8,13 @@ use serde_json::{json, Value};
 
 pub fn iri_domain(f: Family, fr: &FamRefs, n: usize, level: u8) -> Vec<Vec<u8>> {
 	// %FF / %FE: octets that are not UTF-8; %C0%AF: overlong '/', %2F: encoded '/'
-	let mut segs: Vec<&str> = vec!["", ".", "..", "a", "b", "a:b", "%FF", "%FE", "%C0%AF", "%2F", "%61"];
+	let mut segs: Vec<&str> = vec!["", ".", "..", "a", "b", "a:b", "%FF"];
 	if level == 0 {
 		segs = vec!["", "..", "a", "b", "%FF", "%FE", "%61"];
+	}
+	if level >= 2 {
+		// the full alphabet, used with a smaller segment bound
+		segs = vec!["", ".", "..", "a", "b", "a:b", "%FF", "%FE", "%C0%AF", "%2F", "%61"];
 	}
 	if f == Family::Iri && level >= 1 {
 		segs.push("é");
@@ -33,7 +37,12 @@ pub fn run_c15(ctx: &Ctx) -> Report {
 	let (n, level) = ctx.pick((2usize, 0u8), (3usize, 1u8));
 	for f in Family::BOTH {
 		let fr = FamRefs::new(refs, f);
-		let dom = iri_domain(f, &fr, n, level);
+		let mut dom = iri_domain(f, &fr, n, level);
+		if !ctx.quick() {
+			// thorough: additionally the full segment alphabet at PATH(2)
+			let known: std::collections::HashSet<Vec<u8>> = dom.iter().cloned().collect();
+			dom.extend(iri_domain(f, &fr, 2, 2).into_iter().filter(|t| !known.contains(t)));
+		}
 		total.count(&format!("{}_values", f.name()), dom.len() as u64);
 		let shards = 128usize;
 		let r = run_shards(ctx, shards, |si| {
